@@ -5,6 +5,10 @@
   Impl  = MongoModel.patch      (helpers.patch_datetime_awareness_in_document)
           MongoModel.makeAware  (helpers.make_datetime_timezone_aware_in_document)
           MongoModel.filterApplies (the matcher, C01)
+          MongoModel.readDoc / MongoModel.aggPipeline (what a reader is handed; what
+                                `Collection.aggregate` hands `process_pipeline`)
+          MongoModel.Expr.compareOp (the comparison operators of expressions, C04),
+          MongoModel.Pipe.matchStage / aggregate (the pipeline, C03)
           — tied to /repo by the per-run correspondence of harness/props/c18.py.
   The property is a law about the implementation (idempotent normal form, invariant, agreement of
   equivalent operands), so the theorems are stated on Impl directly; the vocabulary of the
@@ -17,20 +21,27 @@
   provenance lemmas for every container-building primitive plus `reachable_date_inv`, into which
   the collection model plugs its `step`.
 
-  Exclusion classes of the direct check on the real API (known findings, witnesses in
-  known_findings.json, replayed on every run):
-    currentdate_raw         `$currentDate` on an existing document stores `mongomock.utcnow()` as
-                            it comes (`raw_clock_normal_full_fails` is the model-side witness)
-    tzaware_delete_date_id  tz_aware=True: deleting a document whose `_id` holds a datetime raises
-                            KeyError (store key taken from the tz-aware copy)
-    tzaware_deepcopy        tz_aware=True: the `utc` tzinfo handed out cannot be deep-copied, so
-                            `$unwind` / `$graphLookup` raise TypeError
-    aggregate_literal_raw   datetime literals in a pipeline outside `$match` are returned as written
+  The direct check on the real API has no exclusion class left.  Repaired findings (fixed records
+  in known_findings.json; their witnesses are run on every check as regression cases):
+    currentdate_raw         `$currentDate` on an existing document stored `mongomock.utcnow()` as
+                            it came (78a8043; `unrepaired_raw_clock_not_normal` is the model-side
+                            witness)
+    tzaware_delete_date_id  tz_aware=True: deleting a document whose `_id` holds a datetime raised
+                            KeyError (6c3956b)
+    tzaware_deepcopy        tz_aware=True: the `utc` tzinfo handed out could not be deep-copied, so
+                            `$unwind` / `$graphLookup` raised TypeError (6f8861a)
+    aggregate_literal_raw   datetime literals in a pipeline outside `$match` were handed on as
+                            written (d1da933; section 9, `unrepaired_literal_*`)
+  Known finding of the read side (section 9 says what the repaired code does for *written*
+  datetimes; a datetime *computed* by an expression is outside `aggPipeline`):
+    aggregate_computed_raw  `$dateFromParts` builds a naive datetime whatever the client's
+                            tz_aware, with its `millisecond` argument in the microsecond field
   Scope limits: PEP 495 fold, tzinfo that is not a fixed whole-minute offset, bson.Timestamp.
 -/
 import Proofs.C18
 import Proofs.C18Filter
 import Proofs.C18Provenance
+import Proofs.C18Agg
 
 namespace MongoModel.Props.C18
 open MongoModel
@@ -390,27 +401,208 @@ example : ∀ (s : List Val) (op : Val ⊕ (Nat × List String × Val)), DateInv
     | none => simp [AllDates]
     | some x => exact h x (List.mem_of_getElem? hx)
 
-/-! ## 8. the `$currentDate` finding, on the model side -/
+/-! ## 8. the clock of `$currentDate`
 
-/-- "A clock value may be stored as it comes": the statement that would be needed for
-    `$currentDate` (collection.py:2124-2131 stores `mongomock.utcnow()` unpatched). -/
-def raw_clock_normal_full : Prop := ∀ (us : Int) (off : Option Int), AllDates Normal (.date us off)
-
-/-- It is false (known finding `currentdate_raw`): 2020-01-01T00:00:00.123456 keeps its
-    microseconds. The same witness is replayed on the real code by the check. -/
-theorem raw_clock_normal_full_fails : ¬ raw_clock_normal_full := by
-  intro h
-  have := h 1577836800123456 none
-  simp [AllDates, Normal] at this
-
-/-- What does hold: a raw clock value is normal exactly when it is naive with whole
-    milliseconds; patched, it always is. -/
-theorem raw_clock_normal_partial (us : Int) (off : Option Int) :
-    AllDates Normal (.date us off) ↔ off = none ∧ us % 1000 = 0 :=
-  Proofs.C18.raw_now_normal_iff us off
+`_current_date_updater` stores `patch (mongomock.utcnow())` (repair 78a8043; MongoModel/Store.lean
+`nowV`), so whatever the clock returns the stored value is normal. -/
 
 theorem patched_clock_normal (us : Int) (off : Option Int) :
     AllDates Normal (patch (.date us off)) :=
   Proofs.C18.now_normal us off
+
+/-- A clock value stored as it comes would be normal exactly when it happens to be naive with
+    whole milliseconds … -/
+theorem raw_clock_normal_iff (us : Int) (off : Option Int) :
+    AllDates Normal (.date us off) ↔ off = none ∧ us % 1000 = 0 :=
+  Proofs.C18.raw_now_normal_iff us off
+
+/-- … which is what the code before the repair relied on: 2020-01-01T00:00:00.123456 kept its
+    microseconds (the witness of the fixed finding `currentdate_raw`, replayed on the real code by
+    every check). -/
+theorem unrepaired_raw_clock_not_normal : ¬ AllDates Normal (.date 1577836800123456 none) := by
+  simp [AllDates, Normal]
+
+/-! ## 9. the aggregation pipeline: a datetime written anywhere in it
+
+`Collection.aggregate` prepares the pipeline before `process_pipeline` sees it (repair d1da933):
+`aggPipeline tz p = (if tz then makeAware else id) (patch p)`.  The statements below hold for the
+whole pipeline value, so for a datetime at every position in it: `$addFields` / `$project` /
+`$literal` values, `$group` keys and accumulator arguments, `$bucket` boundaries, `$facet`
+sub-pipelines, `$replaceRoot`, operands of expression operators, `$match`, before `$out`. -/
+
+/-- A written datetime is handed on exactly as a stored copy of it is read by this client. -/
+theorem pipeline_literal_as_stored_read (tz : Bool) (p : Val) :
+    aggPipeline tz p = readDoc tz (patch p) :=
+  Proofs.C18.aggPipeline_eq_readDoc tz p
+
+/-- `reads_naive` for written datetimes: with `tz_aware=False` every datetime of the prepared
+    pipeline, at any depth, is naive with whole milliseconds. -/
+theorem reads_naive_literals (p : Val) : AllDates Normal (aggPipeline false p) :=
+  Proofs.C18.aggPipeline_form false p
+
+/-- `reads_aware_everywhere` for written datetimes: with `tz_aware=True` every one is aware UTC,
+    and normalising the prepared pipeline gives the normal form of what was written. -/
+theorem reads_aware_literals (p : Val) :
+    AllDates AwareUtc (aggPipeline true p) ∧ patch (aggPipeline true p) = patch p :=
+  ⟨Proofs.C18.awareNormal_awareUtc _ (Proofs.C18.aggPipeline_form true p),
+   Proofs.C18.patch_aggPipeline true p⟩
+
+/-- Both settings at once, with the whole-millisecond part for `tz_aware=True` too: stored
+    documents as read … -/
+theorem reads_form (tz : Bool) {s : List Val} (h : DateInv s) {d : Val} (hd : d ∈ s) :
+    AllDates (ReadForm tz) (readDoc tz d) :=
+  Proofs.C18.readDoc_form tz d (h d hd)
+
+example : DateInv [.doc [("a", .arr [.doc [("b", .date 1577836800123000 none)]])]] ∧
+    readDoc true (.doc [("a", .arr [.doc [("b", .date 1577836800123000 none)]])])
+      = .doc [("a", .arr [.doc [("b", .date 1577836800123000 (some 0))]])] := by
+  refine ⟨?_, rfl⟩
+  intro d hd
+  simp only [List.mem_singleton] at hd
+  subst hd
+  exact (Proofs.C18.allNormalB_iff _).1 (by decide)
+
+/-- … and written datetimes have one and the same form. -/
+theorem literal_form (tz : Bool) (p : Val) : AllDates (ReadForm tz) (aggPipeline tz p) :=
+  Proofs.C18.aggPipeline_form tz p
+
+/-- Nothing but datetimes changes in the pipeline … -/
+theorem literal_shape (tz : Bool) (p : Val) : shape (aggPipeline tz p) = shape p :=
+  Proofs.C18.shape_aggPipeline tz p
+
+/-- … and each becomes the millisecond floor of the instant written, position by position. -/
+theorem literal_dates (tz : Bool) (p : Val) :
+    datesOf (aggPipeline tz p)
+      = (datesOf p).map (fun d => (floorMs (dateUtc d.1 d.2), if tz then some 0 else none)) :=
+  Proofs.C18.datesOf_aggPipeline tz p
+
+/-- At every depth: through any path into the pipeline value. -/
+theorem literal_depth (tz : Bool) (ps : List String) (p : Val) (u : Int) (o : Option Int)
+    (h : getByDotParts ps p = .ok (.date u o)) :
+    getByDotParts ps (aggPipeline tz p)
+      = .ok (.date (floorMs (dateUtc u o)) (if tz then some 0 else none)) :=
+  Proofs.C18.aggPipeline_depth tz ps p u o h
+
+/-- non-vacuity: a literal below `$addFields` / `$literal` inside a `$facet` sub-pipeline -/
+example : getByDotParts ["0", "$facet", "x", "0", "$addFields", "l", "$literal", "a", "1"]
+    (.arr [.doc [("$facet", .doc [("x", .arr [.doc [("$addFields", .doc [("l", .doc [("$literal",
+      .doc [("a", .arr [.null, .date 1577856600123456 (some 330)])])])])]])])]])
+    = .ok (.date 1577856600123456 (some 330)) := by
+  simp [getByDotParts, dget, pyInt?]
+
+theorem literal_depth_commutes (tz : Bool) (ps : List String) (p : Val) :
+    getByDotParts ps (aggPipeline tz p) = (getByDotParts ps p).map (aggPipeline tz) :=
+  Proofs.C18.getByDotParts_aggPipeline tz ps p
+
+/-- What `$out` stores (it inserts, so it normalises) and what `$match` queries with (it patches
+    its filter) is the normal form of the pipeline as written, under both settings. -/
+theorem literal_stored_like_inserted (tz : Bool) (p : Val) : patch (aggPipeline tz p) = patch p :=
+  Proofs.C18.patch_aggPipeline tz p
+
+/-- Preparing twice is preparing once (a result fed into the next pipeline). -/
+theorem pipeline_prepare_idem (tz : Bool) (p : Val) :
+    aggPipeline tz (aggPipeline tz p) = aggPipeline tz p :=
+  Proofs.C18.aggPipeline_idem tz p
+
+/-- `patch_eq_iff_sameMs` for pipelines: prepared alike iff same shape and same milliseconds. -/
+theorem pipeline_eq_iff_sameMs (tz : Bool) (p q : Val) :
+    aggPipeline tz p = aggPipeline tz q ↔ SameMs p q :=
+  Proofs.C18.aggPipeline_eq_iff_sameMs tz p q
+
+/-- `equivalent_operand_finds` for the aggregate-literal positions: whatever stage the datetime
+    is written in and however deep, writing it in another way that denotes the same millisecond
+    gives the same aggregation (`aggregateTz` = read the collections as this client does, prepare
+    the pipeline, run `process_pipeline`). -/
+theorem equivalent_pipeline_aggregates (tz : Bool) (db : Pipe.Db) (coll : String) (p q : Val)
+    (h : SameMs p q) :
+    Proofs.C18.aggregateTz tz db coll p = Proofs.C18.aggregateTz tz db coll q :=
+  Proofs.C18.equivalent_pipeline_aggregates tz db coll p q h
+
+/-- non-vacuity: the same millisecond written two ways as a `$group` key inside an `$addFields` -/
+example : SameMs
+    (.arr [.doc [("$group", .doc [("_id", .doc [("d", .date 1577856600123456 (some 330))])])]])
+    (.arr [.doc [("$group", .doc [("_id", .doc [("d", .date 1577836800123000 none)])])]]) :=
+  (patch_eq_iff_sameMs _ _).1 (by simp [patch, patchFields, patchList, floorMs, dateUtc])
+
+/-- The same for anything at all that is computed from the prepared pipeline. -/
+theorem equivalent_pipeline_any {α : Type} (run : Val → α) (tz : Bool) (p q : Val)
+    (h : SameMs p q) : run (aggPipeline tz p) = run (aggPipeline tz q) :=
+  Proofs.C18.equivalent_pipeline_any run tz p q h
+
+example : SameMs (.arr [.doc [("$out", .str "c")], .date (-1) none])
+                 (.arr [.doc [("$out", .str "c")], .date (-1000) (some 0)]) :=
+  (patch_eq_iff_sameMs _ _).1 (by simp [patch, patchFields, patchList, floorMs, dateUtc])
+
+/-- **A stored field against a written datetime, in an expression.**  `{op: ['$f', b]}` where
+    `f` holds the stored form of `a`: the comparison of the two milliseconds — no error, and the
+    same answer for `tz_aware` False and True. -/
+theorem compare_field_with_literal (tz : Bool) (op : String) (hop : op ∈ Proofs.C18.dateCmpOps)
+    (u : Int) (o : Option Int) (u' : Int) (o' : Option Int) :
+    Expr.compareOp op (readDoc tz (patch (.date u o))) (aggPipeline tz (.date u' o'))
+      = .ok (.bool (Proofs.C18.cmpMs op (msOf u o) (msOf u' o'))) :=
+  Proofs.C18.compare_field_with_literal tz op hop u o u' o'
+
+example : "$gte" ∈ Proofs.C18.dateCmpOps := by decide
+
+/-- The written datetime on the left: `{op: [b, '$f']}`. -/
+theorem compare_literal_with_field (tz : Bool) (op : String) (hop : op ∈ Proofs.C18.dateCmpOps)
+    (u : Int) (o : Option Int) (u' : Int) (o' : Option Int) :
+    Expr.compareOp op (aggPipeline tz (.date u' o')) (readDoc tz (patch (.date u o)))
+      = .ok (.bool (Proofs.C18.cmpMs op (msOf u' o') (msOf u o))) :=
+  Proofs.C18.compare_literal_with_field tz op hop u o u' o'
+
+example : "$ne" ∈ Proofs.C18.dateCmpOps := by decide
+
+/-- In particular `$eq` says "same millisecond". -/
+theorem eq_field_with_literal_iff (tz : Bool) (u : Int) (o : Option Int) (u' : Int)
+    (o' : Option Int) :
+    Expr.compareOp "$eq" (readDoc tz (patch (.date u o))) (aggPipeline tz (.date u' o'))
+      = .ok (.bool true) ↔ sameMillisecond (.date u o) (.date u' o') := by
+  rw [compare_field_with_literal tz "$eq" (by decide)]
+  simp [Proofs.C18.cmpMs, sameMillisecond]
+
+/-- Equivalent written datetimes compare alike against any value. -/
+theorem equivalent_literal_compares (tz : Bool) (op : String) (x a b : Val)
+    (h : sameMillisecond a b) :
+    Expr.compareOp op x (aggPipeline tz a) = Expr.compareOp op x (aggPipeline tz b) :=
+  Proofs.C18.compare_equivalent_literals tz op x a b h
+
+example : sameMillisecond (.date (1577856600123456) (some 330)) (.date 1577836800123999 none) := by
+  simp [sameMillisecond, msOf, dateUtc]
+
+/-- **`$match` inside `aggregate`, both settings.**  On the documents as this client reads them,
+    with the pipeline prepared, the stage selects exactly the documents it selects from the
+    stored ones with the filter as written (and raises on the same). -/
+theorem match_stage_under_tz (tz : Bool) (f : Val) (docs : List Val) (h : DateInv docs) :
+    Pipe.matchStage (aggPipeline tz f) (docs.map (readDoc tz))
+      = (Pipe.matchStage f docs).map (List.map (readDoc tz)) :=
+  Proofs.C18.matchStage_under_tz tz f docs h
+
+example : DateInv [.doc [("_id", .int 1), ("f", .date 1577836800123000 none)]] := by
+  intro d hd
+  simp only [List.mem_singleton] at hd
+  subst hd
+  exact (Proofs.C18.allNormalB_iff _).1 (by decide)
+
+/-! ### before the repair d1da933 (witness of the fixed finding `aggregate_literal_raw`)
+
+`aggPipelineUnrepaired tz p = p`: the pipeline went on as written. -/
+
+/-- The literal of the recorded witness has neither read form … -/
+theorem unrepaired_literal_form (tz : Bool) :
+    ¬ AllDates (ReadForm tz) (aggPipelineUnrepaired tz (.date 1577856600123456 (some 330))) :=
+  Proofs.C18.unrepaired_literal_form tz
+
+/-- … under `tz_aware=True` a naive literal could not be compared with a field at all … -/
+theorem unrepaired_literal_compare_raises :
+    Expr.compareOp "$gt" (readDoc true (patch (.date 1577836800123000 none)))
+        (aggPipelineUnrepaired true (.date 1577836800123999 none)) = .error .typeErr :=
+  Proofs.C18.unrepaired_compare_raises
+
+/-- … and under `tz_aware=False` `$eq` answered "different" for the very datetime stored. -/
+theorem unrepaired_literal_eq_wrong :
+    Expr.compareOp "$eq" (readDoc false (patch (.date 1577856600123456 (some 330))))
+        (aggPipelineUnrepaired false (.date 1577856600123456 (some 330))) = .ok (.bool false) :=
+  Proofs.C18.unrepaired_eq_wrong
 
 end MongoModel.Props.C18
